@@ -129,7 +129,7 @@ def run(repo: Repo, L: Ledger, tier: str):
         why5b = "the .agp beside the FASTA is not formatted from the same assembly object that was streamed"
         if ok5b:
             h = in_branch[0].args[1]
-            defs = [n.value for n in walk_shallow(wasm.node) if isinstance(n, ast.Assign) and is_name(n.targets[0], h.id)] if isinstance(h, ast.Name) else []
+            defs = [n.value for n in walk_shallow(wasm.node) if isinstance(n, ast.Assign) and is_name(n.targets[0], h.id)] if isinstance(h, ast.Name) else [h] if isinstance(h, ast.Call) else []
             pth = defs[0].args[0] if defs and isinstance(defs[0], ast.Call) and defs[0].args else None
             pdef = [n.value for n in walk_shallow(wasm.node) if isinstance(n, ast.Assign) and pth is not None and is_name(n.targets[0], norm(pth))]
             pexpr = pdef[0] if pdef else pth  # through a local or written in place
@@ -138,7 +138,12 @@ def run(repo: Repo, L: Ledger, tier: str):
                 from ..finite import module_consts
 
                 sfx = try_fold(pexpr.args[0], env=dict(module_consts(wasm.module)), default=None)
+                if sfx is None:
+                    raise AnalysisError(f"{wasm.short}: the suffix of the AGP companion path '{norm(pexpr)[:50]}' does not fold to a constant: no verdict")
                 ok5b = sfx == ".agp"
+            elif not (pexpr is not None and norm(pexpr) == wasm.params()[2]):
+                # refuted: the FASTA path itself (the companion would overwrite the FASTA); anything else is a form not understood
+                raise AnalysisError(f"{wasm.short}: how the path of the AGP companion is derived from the output path is not understood ('{norm(pexpr)[:50] if pexpr is not None else None}')")
             why5b = f"AGP companion path is '{norm(pexpr) if pexpr is not None else None}', expected the FASTA path with suffix .agp"
     L.check(ok5b, "R5", wasm.short + ":pair", "same assembly object streamed and formatted; <fasta>.agp", why5b, wasm.loc())
     # the handle streamed into is opened through the output-handle function with a binary mode for FASTA
